@@ -154,8 +154,10 @@ WellFormed(req)  == \A i \in 1..Len(req.puts) : PutWellFormed(req.puts[i])
 EmptyKv == [k \in {} |-> 0]
 InitState == [kv |-> EmptyKv, lastVer |-> -1, idx |-> {}, shadow |-> {}]
 
-KvPut(kv, k, e)  == [x \in DOMAIN kv \cup {k} |-> IF x = k THEN e ELSE kv[x]]
-KvDrop(kv, D)    == [x \in DOMAIN kv \ D |-> kv[x]]
+\* (:> and @@ are evaluated eagerly by TLC; a chain of lazily evaluated function constructors
+\* makes a request with a hundred operations overflow its stack)
+KvPut(kv, k, e)  == (k :> e) @@ kv
+KvDrop(kv, D)    == [x \in DOMAIN kv \ D |-> kv[x]] @@ EmptyKv
 Has(kv, k)       == k \in DOMAIN kv
 
 IdxOf(pk, e)     == {[n |-> e.idx[i].n, k |-> e.idx[i].k, p |-> pk] : i \in 1..Len(e.idx)}
@@ -171,7 +173,7 @@ ExpectedOk(kv, k, exp) ==
 
 (* Notifications: a map key -> notification, later operations on the same key replace   *)
 (* earlier ones (notifications_tracker.go); internal keys never appear.                 *)
-NPut(nf, k, n) == IF Internal(k) THEN nf ELSE [x \in DOMAIN nf \cup {k} |-> IF x = k THEN n ELSE nf[x]]
+NPut(nf, k, n) == IF Internal(k) THEN nf ELSE (k :> n) @@ nf
 
 -----------------------------------------------------------------------------
 (* One put (db.go:applyPut).  acc = [s: state, out: responses so far, nf: notifications] *)
@@ -231,12 +233,17 @@ ApplyDeleteRange(acc, r) ==
         out |-> Append(acc.out, "OK"),
         nf  |-> NPut(acc.nf, r.s, [t |-> "KEY_RANGE_DELETED", ver |-> -1, end |-> r.e])]
 
+\* (the comparison n = n forces TLC to evaluate each intermediate result before it recurses; without it
+\* the lazily evaluated accumulators nest and a request of ~40 operations overflows TLC's stack)
 RECURSIVE FoldPuts(_, _, _, _)
-FoldPuts(acc, ps, i, ts) == IF i > Len(ps) THEN acc ELSE FoldPuts(ApplyPut(acc, ps[i], ts), ps, i + 1, ts)
+FoldPuts(acc, ps, i, ts) == IF i > Len(ps) THEN acc
+                            ELSE LET nx == ApplyPut(acc, ps[i], ts) IN IF nx = nx THEN FoldPuts(nx, ps, i + 1, ts) ELSE acc
 RECURSIVE FoldDels(_, _, _)
-FoldDels(acc, ds, i) == IF i > Len(ds) THEN acc ELSE FoldDels(ApplyDelete(acc, ds[i]), ds, i + 1)
+FoldDels(acc, ds, i) == IF i > Len(ds) THEN acc
+                        ELSE LET nx == ApplyDelete(acc, ds[i]) IN IF nx = nx THEN FoldDels(nx, ds, i + 1) ELSE acc
 RECURSIVE FoldRngs(_, _, _)
-FoldRngs(acc, rs, i) == IF i > Len(rs) THEN acc ELSE FoldRngs(ApplyDeleteRange(acc, rs[i]), rs, i + 1)
+FoldRngs(acc, rs, i) == IF i > Len(rs) THEN acc
+                        ELSE LET nx == ApplyDeleteRange(acc, rs[i]) IN IF nx = nx THEN FoldRngs(nx, rs, i + 1) ELSE acc
 
 EmptyNf == [k \in {} |-> 0]
 
